@@ -3,4 +3,4 @@
 From Coq Require Extraction ExtrOcamlBasic.
 From Falco Require Import Base.Res Base.SMBase Gen.SMConst Model.SM Model.SMDoc.
 Extraction Language OCaml.
-Extraction "sm_model.ml" run_history init stored_fresh rc_bucket max_varnish_restarts model_outcome all_cells doc_outcome.
+Extraction "sm_model.ml" run_history r_flows init stored_fresh rc_bucket max_varnish_restarts model_outcome all_cells doc_outcome.
